@@ -63,6 +63,8 @@ def templates(tier, seed=0):
         'obj-spread': ['print({v.., "z": 0})'],
         'list-destructure': ['[p] := v', 'print(p)'],
         'obj-destructure': ['{k} := v', 'print(k)'],
+        'obj-destructure-empty': ['{} := v', 'print(1)'], 'list-destructure-empty': ['[] := v', 'print(1)'], 'obj-param-empty': ['fn e0(p, {}) {', '    return p', '}', 'print(e0(1, v))'],
+        'nested-empty-patterns': ['[p, {}, []] := [1, v, v]', 'print(p)'], 'obj-assign-empty': ['{} = v', 'print(1)'], 'for-target-empty': ['for [i, {}] in [v] {', '    print(i)', '}'],
         'for-iter': ['for [i, x] in v {', '    print(x)', '}'],
         'callee': ['print(v())'],
         'range-start': ['print(v .. 1)'],
